@@ -78,6 +78,9 @@ func c10Check(cs c10Case) (clause, detail string) {
 }
 
 func c10Run(c *fw.Ctx) {
+	if c.Thorough() {
+		c10Shapes(c)
+	}
 	for _, s := range grammar.Specs {
 		grammar.EachBad(s, func(b grammar.Bad) {
 			for _, stride := range []int{0, 1} {
@@ -94,6 +97,70 @@ func c10Run(c *fw.Ctx) {
 				}
 				if clause, detail := c10Check(cs); clause != "" {
 					c.Violation("C10|"+b.Cmd+"|"+b.Class+"|"+clause, detail+" request="+trunc(cs.Bad, 100), cs)
+				}
+			}
+		})
+	}
+}
+
+// c10Shapes (thorough): every representative well-formed shape of every command
+// (all option words, list arities) with each position replaced by a null bulk and
+// each numeric-looking position by each non-number; the required positionals only,
+// optional tails keep their own generator in grammar.EachBad.
+func c10Shapes(c *fw.Ctx) {
+	for _, s := range grammar.Specs {
+		if s.Name == "CONFIG" || s.Name == "QUIT" || s.Name == "PING" {
+			continue
+		}
+		s := s
+		grammar.EachWellFormed(s, true, 1, func(r grammar.Req) {
+			npos := len(s.Pos)
+			for i := 1; i <= npos && i < len(r.Args); i++ {
+				var variants [][]resp.Value
+				var classes []string
+				el := bulkElems(r.Args)
+				nul := append([]resp.Value{}, el...)
+				nul[i] = resp.Nil()
+				variants = append(variants, nul)
+				classes = append(classes, "shape-null@"+fmt.Sprint(i))
+				switch s.Pos[i-1] {
+				case grammar.Int:
+					for _, t := range grammar.NonInts {
+						v := append([]resp.Value{}, el...)
+						v[i] = resp.B(t)
+						variants = append(variants, v)
+						classes = append(classes, "shape-non-numeric@"+fmt.Sprint(i))
+					}
+				case grammar.Float, grammar.Bound:
+					for _, t := range grammar.NonFloats {
+						v := append([]resp.Value{}, el...)
+						v[i] = resp.B(t)
+						variants = append(variants, v)
+						classes = append(classes, "shape-non-numeric@"+fmt.Sprint(i))
+					}
+				}
+				for k, v := range variants {
+					if !c.Mine() {
+						continue
+					}
+					cs := c10Case{Cmd: s.Name, Class: classes[k], Bad: resp.A(v...).Bytes(), Follow: r.Args}
+					c.Eval()
+					c.Nontrivial()
+					if clause, detail := c10Check(cs); clause != "" {
+						c.Violation("C10|"+s.Name+"|"+classes[k]+"|"+clause, detail+" request="+trunc(cs.Bad, 100), cs)
+					}
+				}
+			}
+			// every shorter prefix that cuts into the required positionals
+			for n := 1; n <= npos && n < len(r.Args); n++ {
+				if !c.Mine() {
+					continue
+				}
+				cs := c10Case{Cmd: s.Name, Class: "shape-missing@" + fmt.Sprint(n), Bad: grammar.Encode(r.Args[:n]), Follow: r.Args}
+				c.Eval()
+				c.Nontrivial()
+				if clause, detail := c10Check(cs); clause != "" {
+					c.Violation("C10|"+s.Name+"|"+cs.Class+"|"+clause, detail+" request="+trunc(cs.Bad, 100), cs)
 				}
 			}
 		})
